@@ -173,6 +173,137 @@ def frac_eval(e, vals):
     return out[-1]
 
 
+class NoValue(Exception):
+    pass
+
+
+_FUN = {"abs": abs, "sin": math.sin, "cos": math.cos, "tan": math.tan, "exp": math.exp, "log": math.log, "log2": math.log2,
+        "log10": math.log10, "sqrt": math.sqrt, "tanh": math.tanh, "sinh": math.sinh, "cosh": math.cosh, "asin": math.asin,
+        "acos": math.acos, "atan": math.atan, "asinh": math.asinh, "acosh": math.acosh, "atanh": math.atanh}
+
+
+def tame(c):
+    """magnitude normalisation of a numeric constant: a non-zero value of extreme magnitude is replaced by a value
+    of ordinary magnitude with the same sign (a fixed function of the value: equal constants stay equal, zero stays
+    zero).  Being a polynomial of degree ≤ d does not depend on the magnitude of non-zero coefficients, but a
+    float finite difference cannot see a term under a 1e-9 or 1e-300 coefficient."""
+    if c == 0.0 or 1e-4 <= abs(c) <= 1e4:
+        return c
+    m, _ = math.frexp(abs(c))          # m in [0.5, 1)
+    return math.copysign(1.0 + m, c)
+
+
+def float_eval(e, vals, cmap=None):
+    """own float interpreter for *all* node kinds (used where the exact interpreter meets a non-polynomial node);
+    `cmap` is applied to every numeric constant / coefficient; NoValue at points outside the domain"""
+    from optyx.core.expressions import BinaryOp, Constant, UnaryOp, Variable
+    from optyx.core.parameters import Parameter
+    from optyx.core import vectors as V
+    from optyx.core import matrices as M
+
+    cm = cmap or (lambda c: c)
+
+    def num(x):
+        if isinstance(x, np.ndarray):
+            if x.ndim != 0:
+                raise NoValue("array constant")
+            x = x.item()
+        x = float(x)
+        if not math.isfinite(x):
+            raise NoValue("non-finite constant")
+        return cm(x)
+
+    def vec(v):
+        if isinstance(v, V.VectorVariable):
+            return [vals[x.name] for x in v._variables]
+        if hasattr(v, "_expressions"):
+            return [float_eval(x, vals, cmap) for x in v._expressions]
+        if hasattr(v, "vector") and hasattr(v, "power"):       # ElementwisePower
+            return [power(a, float(v.power)) for a in vec(v.vector)]
+        if hasattr(v, "vector") and hasattr(v, "op"):          # ElementwiseUnary
+            return [fun(v.op, a) for a in vec(v.vector)]
+        raise NoValue("vector operand")
+
+    def fun(op, a):
+        try:
+            return -a if op == "neg" else _FUN[op](a)
+        except (ValueError, OverflowError, ZeroDivisionError):
+            raise NoValue(op)
+
+    def power(a, b):
+        try:
+            if float(b).is_integer() and abs(b) <= 64:
+                return float(a) ** int(b)
+            if a <= 0:
+                raise NoValue("power of a non-positive base")
+            return math.pow(a, b)
+        except (OverflowError, ZeroDivisionError, ValueError):
+            raise NoValue("power")
+
+    out = []
+    stack = [(e, 0)]
+    while stack:
+        n, ph = stack.pop()
+        if isinstance(n, BinaryOp):
+            if ph == 0:
+                stack.append((n, 1)); stack.append((n.right, 0)); stack.append((n.left, 0))
+                continue
+            r = out.pop(); l = out.pop()
+            if n.op == "+": out.append(l + r)
+            elif n.op == "-": out.append(l - r)
+            elif n.op == "*": out.append(l * r)
+            elif n.op == "/":
+                if abs(r) < 1e-9:
+                    raise NoValue("division")
+                out.append(l / r)
+            elif n.op == "**": out.append(power(l, r))
+            else: raise NoValue("operator")
+        elif isinstance(n, UnaryOp):
+            if ph == 0:
+                stack.append((n, 1)); stack.append((n.operand, 0))
+            else:
+                out.append(fun(n.op, out.pop()))
+        elif isinstance(n, Constant):
+            out.append(num(n.value))
+        elif isinstance(n, Variable):
+            out.append(vals[n.name])
+        elif isinstance(n, Parameter):
+            out.append(float(np.asarray(n.value)))
+        elif isinstance(n, V.LinearCombination):
+            out.append(sum(num(c) * x for c, x in zip(np.asarray(n.coefficients).tolist(), vec(n.vector))))
+        elif isinstance(n, V.VectorSum):
+            out.append(sum(vec(n.vector)))
+        elif isinstance(n, V.VectorExpressionSum):
+            out.append(sum(vec(n.expression)))
+        elif isinstance(n, V.DotProduct):
+            out.append(sum(a * b for a, b in zip(vec(n.left), vec(n.right))))
+        elif isinstance(n, V.L2Norm):
+            out.append(math.sqrt(sum(a * a for a in vec(n.vector))))
+        elif isinstance(n, V.L1Norm):
+            out.append(sum(abs(a) for a in vec(n.vector)))
+        elif isinstance(n, M.QuadraticForm):
+            xs = vec(n.vector)
+            Q = np.asarray(n.matrix).tolist()
+            out.append(sum(num(Q[i][j]) * xs[i] * xs[j] for i in range(len(xs)) for j in range(len(xs))))
+        elif isinstance(n, V.VectorPowerSum):
+            out.append(sum(power(a, float(n.power)) for a in vec(n.vector)))
+        elif isinstance(n, V.VectorUnarySum):
+            out.append(sum(fun(n.op, a) for a in vec(n.vector)))
+        elif isinstance(n, M.MatrixSum):
+            if isinstance(n.matrix, M.MatrixVariable):
+                out.append(sum(vals[x.name] for row in n.matrix._variables for x in row))
+            else:
+                out.append(sum(float_eval(x, vals, cmap) for row in n.matrix._expressions for x in row))
+        elif isinstance(n, M.FrobeniusNorm):
+            out.append(math.sqrt(sum(vals[x.name] ** 2 for row in n.matrix._variables for x in row)))
+        else:
+            raise NoValue(type(n).__name__)
+    v = out[-1]
+    if not math.isfinite(v):
+        raise NoValue("non-finite value")
+    return v
+
+
 def var_names(e):
     """names of the variables of `e`; iterative over BinaryOp/UnaryOp spines (deep chains)"""
     from optyx.core.expressions import BinaryOp, Constant, UnaryOp, Variable
@@ -243,42 +374,34 @@ def degree_oracle(e, d, rng, lines=3):
 
 
 def numeric_degree_oracle(e, d, rng, why):
-    """the Fraction interpreter met a non-polynomial node although a finite degree was reported:
-    decide numerically whether the *function* is a polynomial of degree ≤ d along lines"""
+    """the Fraction interpreter met a non-polynomial node although a finite degree was reported: decide
+    numerically whether the *function* is a polynomial of degree ≤ d along lines — as written, and with the
+    magnitudes of extreme non-zero coefficients normalised (`tame`), so that a non-polynomial term under a
+    1e-9 / 1e-300 coefficient is visible to a float finite difference"""
     names = var_names(e)
     if not names:
         return None  # a closed constant expression is a polynomial of degree 0 whatever its nodes
-    bad = 0
     tried = 0
-    for _ in range(6):
-        base = {n: rng.randint(-8, 8) / 8 + 1 / 16 for n in names}
-        dirn = {n: rng.choice([-1.0, -0.5, 0.5, 1.0, 0.25]) for n in names}
-        pts = [{n: base[n] + j * 0.5 * dirn[n] for n in names} for j in range(d + 2)]
-        try:
-            vals = [float(oracle.prim(oracle.ref_eval(e, pt))) for pt in pts]
-        except (oracle.NotRegular, OverflowError, ZeroDivisionError, ValueError):
-            continue
-        except (AttributeError, TypeError):
-            # a node form the shared reference interpreter does not know (e.g. VectorSum over a vector
-            # expression): evaluate through the expression's own evaluate()
+    for label, cmap in (("", None), (" after normalising the magnitudes of its non-zero coefficients", tame)):
+        bad = 0
+        for _ in range(6):
+            base = {n: rng.randint(-8, 8) / 8 + 1 / 16 for n in names}
+            dirn = {n: rng.choice([-1.0, -0.5, 0.5, 1.0, 0.25]) for n in names}
+            pts = [{n: base[n] + j * 0.5 * dirn[n] for n in names} for j in range(d + 2)]
             try:
-                with warnings.catch_warnings(), np.errstate(all="ignore"):
-                    warnings.simplefilter("ignore")
-                    vals = [float(np.asarray(e.evaluate(pt))) for pt in pts]
-            except Exception:  # noqa: BLE001
+                vals = [float_eval(e, pt, cmap) for pt in pts]
+            except NoValue:
                 continue
-            if not all(math.isfinite(v) for v in vals):
-                continue
-        tried += 1
-        scale = max(1.0, max(abs(v) for v in vals)) * (2 ** (d + 1))
-        if abs(binom_diff(vals)) > 1e-7 * scale:
-            bad += 1
+            tried += 1
+            scale = max(1.0, max(abs(v) for v in vals)) * (2 ** (d + 1))
+            if abs(binom_diff(vals)) > 1e-7 * scale:
+                bad += 1
+        if bad:
+            return {"what": f"reported degree {d} for a function that is not a polynomial of degree ≤ {d}{label} "
+                            f"(non-polynomial node: {why}); {bad} numeric finite differences are non-zero",
+                    "mode": "numeric" + ("-normalised" if cmap else "")}
     if tried == 0:
         return "skip:non-polynomial node, no regular sample point"
-    if bad:
-        return {"what": f"reported degree {d} for a function that is not a polynomial of degree ≤ {d} "
-                        f"(non-polynomial node: {why}); {bad}/{tried} numeric finite differences are non-zero",
-                "mode": "numeric"}
     return None
 
 
@@ -525,6 +648,65 @@ def cell_cover(rng):
     return out
 
 
+SPECIAL_COEFS = [0.0, -0.0, 1e-300, -1e-300, 5e-324, 2.2250738585072014e-308, 1e-12, -1e-12, 1e-9, -1e-9, 9.9e-9, 1e-8, -1e-8,
+                 1e-8 * (1 + 2 ** -20), 1e-8 * (1 - 2 ** -20), 1e-7, -1e-7, 1e8, -1e8, 1e16, -1e16]
+
+
+def coef(rng):
+    """a numeric coefficient: mostly small dyadics, sometimes an exact zero or an extreme magnitude"""
+    return rng.choice(SPECIAL_COEFS) if rng.random() < 0.15 else gen.const(rng)
+
+
+def magnitude_cover(rng):
+    """coefficient magnitudes: every place a numeric coefficient stands (LinearCombination arrays, matmul rows,
+    scalar factors and divisors, QuadraticForm entries, nested) × {0, ±1e-300, denormals, ±1e-12, ±1e-9, around 1e-8,
+    ±1e-7, ±1e8, ±1e16}, with the high-degree / non-polynomial element sitting under that coefficient"""
+    from optyx.core.expressions import BinaryOp, Constant
+    from optyx.core import vectors as V
+    from optyx.core import matrices as M
+    from optyx.core.functions import sin
+
+    U = gen.Universe(rng)
+    x, y = U.scalars[0], U.scalars[1]
+    y2 = U.y[0:2]
+    highs = [("y3", lambda: y ** 3), ("y2", lambda: y * 2.0 * y if False else y ** 2), ("xy", lambda: x * y), ("sin", lambda: sin(y)),
+             ("1/y", lambda: 1.0 / y), ("sqrt", lambda: (y + 3.0) ** 0.5), ("(x+y)4", lambda: (x + y) ** 4)]
+    Q1 = np.array([[1.0, 0.5], [0.0, 2.0]])
+    def forms_for(m, H, inv):
+            forms = [
+                ("LC[1,m]", lambda: V.LinearCombination(np.array([1.0, m]), V.VectorExpression([x, H()]))),
+                ("LC[m,1]", lambda: V.LinearCombination(np.array([m, 1.0]), V.VectorExpression([H(), x]))),
+                ("c@ve", lambda: np.array([2.0, m]) @ V.VectorExpression([x + 1.0, H()])),
+                ("ve@c", lambda: V.VectorExpression([H(), x]) @ np.array([m, -1.0])),
+                ("c@matmul", lambda: np.array([1.0, 1.0]) @ M.matmul(np.array([[1.0, m], [0.5, 0.0]]), V.VectorExpression([x, H()]))),
+                ("matmul[0]", lambda: M.matmul(np.array([[1.0, m], [0.5, 0.0]]), V.VectorExpression([x, H()]))[0]),
+                ("dot(matmul,y)", lambda: V.DotProduct(M.matmul(np.array([[m, 1.0], [0.0, 1.0]]), V.VectorExpression([H(), x])), y2)),
+                ("QF(matmul)", lambda: M.QuadraticForm(M.matmul(np.array([[1.0, m], [0.0, 1.0]]), V.VectorExpression([x, H()])), Q1)),
+                ("QF(Q=m)", lambda: M.QuadraticForm(V.VectorExpression([x, H()]), np.array([[1.0, 0.0], [0.0, m]]))),
+                ("nestedLC", lambda: V.LinearCombination(np.array([1.0, 1.0]), V.VectorExpression([x, V.LinearCombination(np.array([m]), V.VectorExpression([H()]))]))),
+                ("x+m*H", lambda: x + Constant(m) * H()), ("x+H*m", lambda: x + H() * m), ("-(m*H)+x", lambda: -(Constant(m) * H()) + x),
+                ("(m*H+x)**2", lambda: BinaryOp(Constant(m) * H() + x, Constant(2), "**")),
+                ("dot(ve[m*H])", lambda: V.DotProduct(V.VectorExpression([x, Constant(m) * H()]), y2)),
+                ("VectorSum[m*H]", lambda: V.VectorSum(V.VectorExpression([x, Constant(m) * H()]))),
+                ("LC[m]*k", lambda: 3.0 * V.LinearCombination(np.array([1.0, m]), V.VectorExpression([x, H()])) - y),
+            ]
+            if inv is not None:
+                forms.append(("x+H/(1/m)", lambda: x + H() / Constant(inv)))
+            return forms
+
+    out = []
+    for m in SPECIAL_COEFS:
+        inv = None
+        if m != 0:
+            with np.errstate(all="ignore"):
+                t = float(np.float64(1.0) / np.float64(m))
+            inv = t if math.isfinite(t) else None
+        for hn, H in highs:
+            for fn, mk in forms_for(m, H, inv):
+                out.append((f"mag:{fn}:{m!r}:{hn}", mk))
+    return out
+
+
 def vector_likes(U):
     """(name, maker) of every kind of vector-like object the API produces, length n: VectorVariable and its
     views, matrix rows / columns / diagonals, VectorExpressions of every element class (linear, constant,
@@ -720,7 +902,7 @@ def rand_poly(rng, U, depth):
         if r < 0.55:
             return rng.choice(U.all_vars())
         if r < 0.97:
-            return Constant(gen.const(rng))
+            return Constant(coef(rng))
         return rng.choice(U.params)
     r = rng.random()
     n = U.n
@@ -740,16 +922,16 @@ def rand_poly(rng, U, depth):
         def vec():
             v = vec0()
             while rng.random() < 0.3:   # wrap in (possibly nested) MatrixVectorProducts
-                v = M.matmul(np.array([[gen.const(rng) for _ in range(len(v))] for _ in range(n)], dtype=float), v)
+                v = M.matmul(np.array([[coef(rng) for _ in range(len(v))] for _ in range(n)], dtype=float), v)
             return v
         if kind == "lc":
-            return V.LinearCombination(np.array([gen.const(rng) for _ in range(n)], dtype=float), vec())
+            return V.LinearCombination(np.array([coef(rng) for _ in range(n)], dtype=float), vec())
         if kind == "vs":
             return rng.choice(U.vec_views()).sum() if rng.random() < 0.5 else V.VectorSum(vec())
         if kind == "dot":
             return V.DotProduct(vec(), vec())
         if kind == "qf":
-            return M.QuadraticForm(vec(), np.array([[gen.const(rng) for _ in range(n)] for _ in range(n)], dtype=float))
+            return M.QuadraticForm(vec(), np.array([[coef(rng) for _ in range(n)] for _ in range(n)], dtype=float))
         if kind == "ps":
             return V.VectorPowerSum(rng.choice(U.vec_views()), rng.choice([0, 1, 2, 3, 2.0, 0.5, -1]))
         if kind == "es":
@@ -771,10 +953,10 @@ def rand_poly(rng, U, depth):
         return BinaryOp(l, rand_poly(rng, U, 1), "**")
     if op == "/":
         if rng.random() < 0.85:
-            return BinaryOp(l, Constant(rng.choice([2.0, 4.0, -0.5, 1.0, 8, 0.25])), "/")
+            return BinaryOp(l, Constant(rng.choice([2.0, 4.0, -0.5, 1.0, 8, 0.25, 1e-9, 1e8, -1e-300])), "/")
         return BinaryOp(l, rand_poly(rng, U, 1), "/")
     if op == "*" and rng.random() < 0.6:
-        k = Constant(gen.const(rng)) if rng.random() < 0.6 else (Constant(gen.const(rng)) + gen.const(rng))
+        k = Constant(coef(rng)) if rng.random() < 0.6 else (Constant(coef(rng)) + gen.const(rng))
         return BinaryOp(k, l, "*") if rng.random() < 0.5 else BinaryOp(l, k, "*")
     return BinaryOp(l, rand_poly(rng, U, depth - 1), op)
 
@@ -841,7 +1023,7 @@ def check_cases(cases, rep, rng, thorough, T_choices=(400, 0, 3)):
         if o["unsupported"] is None:
             model = next(outs)
             if model != impl_line:
-                rep.corr_mismatches.append({"tag": tag, "T": o["T"], "expr": (o["sexp"] or "")[:600], "impl": impl_line, "model": model, **hist})
+                rep.corr_mismatches.append({"tag": tag, "T": o["T"], "expr": (o["sexp"] or "")[:600], "expr_full": o["sexp"], "impl": impl_line, "model": model, **hist})
         # the property oracle on the real code
         if d is not None:
             rep.nontrivial.add(hash(o["sexp"] or tag))
@@ -868,10 +1050,11 @@ def run(ctx) -> core.Report:
                            "(every operator × operand kind, every exponent kind, every unary function, every vector "
                            "node × operand kind, vector nodes inside scalar arithmetic), every kind of vector-like object (views, "
                            "matrix rows/columns/diagonals, vector expressions of every element class, bare and wrapped in one or "
-                           "two MatrixVectorProducts) × every vector-operand position, deep chains around the 400 "
+                           "two MatrixVectorProducts) × every vector-operand position, coefficient magnitudes (0, denormals, ±1e-300 … ±1e16) "
+                           "in every coefficient position over high-degree / non-polynomial elements, deep chains around the 400 "
                            "switch and the 500 depth cut-off, seeded random trees biased to the polynomial fragment; "
                            "thresholds 400 / 0 / 3 / 10^9; non-trivial = distinct expressions with a finite degree")
-    cases = list(cell_cover(rng)) + vector_operand_cover(rng) + chain_cases(rng, thorough)
+    cases = list(cell_cover(rng)) + vector_operand_cover(rng) + magnitude_cover(rng) + chain_cases(rng, thorough)
     n_rand = 40000 if thorough else 4000
     for i in range(n_rand):
         U = gen.Universe(rng)
@@ -884,13 +1067,57 @@ def run(ctx) -> core.Report:
     return rep
 
 
+def coefficient_variants(sx):
+    """S-expression variants of `sx` whose LinearCombination / QuadraticForm coefficient lists have their zeros
+    (and, separately, all entries) replaced by extreme magnitudes"""
+    import re
+    from ser import rat
+
+    out = []
+    lists = list(re.finditer(r"\(lc \(([^()]*)\)", sx))
+    if not lists:
+        return out
+    for special in (1e-9, -1e-300, 1e-8 * (1 - 2 ** -20), 1e8):
+        sp = rat(special)
+
+        def zeros_to(mo):
+            return "(lc (" + " ".join(sp if t == "0" else t for t in mo.group(1).split()) + ")"
+
+        def first_to(mo):
+            toks = mo.group(1).split()
+            return "(lc (" + " ".join([sp] + toks[1:]) + ")" if toks else mo.group(0)
+
+        def last_to(mo):
+            toks = mo.group(1).split()
+            return "(lc (" + " ".join(toks[:-1] + [sp]) + ")" if toks else mo.group(0)
+
+        for fn in (zeros_to, first_to, last_to):
+            v = re.sub(r"\(lc \(([^()]*)\)", fn, sx)
+            if v != sx:
+                out.append(v)
+    return out[:12]
+
+
 def search(ctx, rep):
     """proof or correspondence broken and no failing input among this run's cases: widen —
     many more polynomial-biased random trees and the whole cell cover against the oracle only"""
     import optyx.analysis as A
 
     rng = core.Rng(ctx["seed"] + 104729)
-    pool = [(t, m) for t, m in cell_cover(rng)] + vector_operand_cover(rng) + chain_cases(rng, False)
+    # first the expressions on which model and implementation disagreed in this run, as they are and with their
+    # exactly-zero / ordinary coefficients moved to extreme magnitudes (the disagreement says *where* the code
+    # changed; a failing input is usually a neighbour of it)
+    pool = []
+    seen_expr = set()
+    for mm in rep.corr_mismatches:
+        sx = mm.get("expr_full")
+        if not sx or sx in seen_expr or len(seen_expr) > 400:
+            continue
+        seen_expr.add(sx)
+        pool.append(("mismatch", (lambda sx=sx: deser(sx))))
+        for v in coefficient_variants(sx):
+            pool.append(("mismatch-variant", (lambda v=v: deser(v))))
+    pool += [(t, m) for t, m in cell_cover(rng)] + vector_operand_cover(rng) + magnitude_cover(rng) + chain_cases(rng, False)
     for i in range(30000):
         U = gen.Universe(rng)
         depth = rng.randint(1, 6)
